@@ -69,7 +69,8 @@ class Leg(object):
         return st.one_of(
             st.fixed_dictionaries({"mode": st.just("wrap"), "items": items, "how": st.sampled_from(["feature", "mapping", "update"]),
                                    "from_db": st.booleans(), "base": st.sampled_from(["attrs", "attrs", "no-ninth-column", "empty-ninth-column"])}),
-            st.fixed_dictionaries({"mode": st.just("view"), "items": lmap, "gtf": st.booleans()}),
+            st.fixed_dictionaries({"mode": st.just("view"), "items": lmap, "gtf": st.booleans(),
+                                   "lib_call": st.sampled_from([None, None, "bed12:ID", "bed12:Name", "bed12:absent", "bed12:by-id"])}),
             st.fixed_dictionaries({"mode": st.just("json"), "items": lmap, "db": st.booleans()}),
             st.fixed_dictionaries({"mode": st.just("merge"), "a": nmap, "b": nmap, "numeric_sort": st.booleans(),
                                    "kinds": st.sampled_from(["dict", "attrs", "mixed"]), "arl": st.booleans()}),
@@ -97,6 +98,9 @@ class Leg(object):
             labels.append("arl=%s" % case["arl"])
         elif m == "eq":
             nt = case["change"] != "none"
+        elif m == "view" and case.get("lib_call"):
+            nt = True
+            labels.append("view:lib_call=" + case["lib_call"])
         else:
             nt = rich(case["items"])
         return nt, labels
@@ -198,6 +202,28 @@ class Leg(object):
         g = feature_from_line(line, keep_order=True)
         if str(g) != line:
             return Failure("always_return_list=False: a parsed line prints %r, input %r" % (str(g), line), sig={"kind": "view-print"})
+        if case.get("lib_call"):
+            # a library call made while the user has the switch off leaves it off (bed12 turns it on internally)
+            import gffutils
+
+            constants.always_return_list = True
+            db = gffutils.create_db("chr1\tsrc\tmRNA\t1\t50\t.\t+\t.\tID=tx;Name=n1\n"
+                                    "chr1\tsrc\texon\t1\t10\t.\t+\t.\tID=e1;Parent=tx\n"
+                                    "chr1\tsrc\texon\t30\t50\t.\t+\t.\tID=e2;Parent=tx\n", ":memory:", from_string=True)
+            tx = db["tx"]
+            constants.always_return_list = False
+            what = case["lib_call"].split(":")[1]
+            bed = db.bed12("tx" if what == "by-id" else tx, name_field={"absent": "no_such_key", "by-id": "ID"}.get(what, what))
+            want_name = {"ID": "tx", "Name": "n1", "absent": ".", "by-id": "tx"}[what]
+            if bed.split("\t")[3] != want_name:
+                return Failure("always_return_list=False: bed12(name_field for %s) names the line %r, expected %r"
+                               % (what, bed.split("\t")[3], want_name), sig={"kind": "view-libcall-result"})
+            if constants.always_return_list is not False:
+                return Failure("db.bed12(%s) called with always_return_list=False left the switch at %r"
+                               % (case["lib_call"], constants.always_return_list), sig={"kind": "view-switch-leaked"})
+            if tx["ID"] != "tx" or f.attributes[list(stored)[0]] != (stored[list(stored)[0]][0] if len(stored[list(stored)[0]]) == 1 else stored[list(stored)[0]]):
+                return Failure("after db.bed12(%s) single-item values are viewed as %r" % (case["lib_call"], tx["ID"]),
+                               sig={"kind": "view-switch-leaked"})
         constants.always_return_list = True
         again = dict((k, list(f.attributes[k])) for k in f.attributes.keys())
         if again != stored or str(f) != printed:
